@@ -80,6 +80,18 @@ B(pre, uri) == <<Cp(pre), Cp(uri)>>
 SetNs(pre, uri) == <<120, 109, 108, 110, 115, 58>> \o Cp(pre) \o <<61>> \o Cp(uri)
 QN(pre, n) == [k |-> "name", pre |-> Cp(pre), loc |-> Cp(n)]
 
+\* a LONG flat expression, given as text: true() and true() and ... (n calls).  TLC's stack does not take rendering an
+\* abstract syntax tree of that size, so the text is built directly; that it IS the spelling of the left-deep chain and
+\* that the chain's value is true is checked for every n <= 24 (ASSUME FlatIsChain in MC_Cli), the long member is the
+\* same family further out.
+TrueCall == Cp("true") \o <<40, 41>>
+RECURSIVE FlatAnd(_)
+FlatAnd(n) == IF n = 1 THEN TrueCall        \* halves: the recursion is log n deep; the spelling without optional white space, true()and true()
+              ELSE LET h == n \div 2 IN FlatAnd(h) \o Cp("and") \o <<32>> \o FlatAnd(n - h)
+RECURSIVE LeftChain(_)
+LeftChain(n) == IF n = 1 THEN Fn0("true") ELSE Bin("and", LeftChain(n - 1), Fn0("true"))
+Flat(n) == [t |-> "flat", n |-> n, text |-> FlatAnd(n)]
+
 NumHalf(k) == [t |-> "num", n |-> Fin(512 * k)]       \* k/2
 RECURSIVE AndChain(_)
 AndChain(n) == IF n = 1 THEN Fn0("true") ELSE Bin("and", AndChain(n \div 2), AndChain(n - (n \div 2)))   \* balanced: depth log n
@@ -125,7 +137,7 @@ Exprs == <<
   AbsP(<<Dos, Step("child", NameT("b"), <<Bin("div", Fn0("last"), NumL(2))>>)>>),                    \* 33  //b[last() div 2]
   Fn1("number", [t |-> "str", v |-> <<49, 101, 51>>]),                                               \* 34  number('1e3')   NaN: no exponents in XPath 1.0
   Bin(">", [t |-> "str", v |-> <<105, 110, 102>>], NumL(1)),                                         \* 35  'inf' > 1       false
-  AndChain(24),                                                                                      \* 36  true() and (true() and ...) - 24 zero-argument calls (TLC's stack does not take the ~650 tokens of 130)
+  AndChain(24),                                                                                      \* 36  true() and (true() and ...) - 24 zero-argument calls, balanced (see 48 for the long flat one)
   \* ---- expressions that come with --setns arguments (README: --setns xmlns:<prefix>=<uri>) ----
   WithNs(AbsP(<<Dos, Step("child", QN("q", "b"), <<>>)>>), <<B("q", "u1")>>, <<SetNs("q", "u1")>>, FALSE),         \* 37  //q:b       q = u1: the document calls it p
   WithNs(AbsP(<<Dos, Step("child", QN("q", "b"), <<>>)>>), <<B("q", "u2")>>, <<SetNs("q", "u2")>>, FALSE),         \* 38  //q:b       q = u2: selects nothing
@@ -139,7 +151,8 @@ Exprs == <<
   AbsP(<<Dos, Step("child", QN("p", "b"), <<>>)>>),                                                                \* 45  //p:b without --setns: the document's own prefix is not part of the expression context
   WithNs(AbsP(<<Dos, Step("child", QN("q", "b"), <<>>)>>), <<B("q", "u1")>>, <<SetNs("q", "u2"), SetNs("q", "u1")>>, FALSE),     \* 46  the same prefix twice: the later binding holds
   WithNs(AbsP(<<Dos, Step("child", QN("q", "b"), <<Rel(<<Step("attribute", QN("q", "x"), <<>>)>>)>>)>>),
-         <<B("q", "u1")>>, <<SetNs("q", "u1")>>, FALSE)                                                            \* 47  //q:b[@q:x]
+         <<B("q", "u1")>>, <<SetNs("q", "u1")>>, FALSE),                                                           \* 47  //q:b[@q:x]
+  Flat(140)                                                                                                        \* 48  true() and true() and ... : 140 zero-argument calls in ONE flat expression
 >>
 
 \* ---------------------------------------------------------------------------------------------
@@ -168,15 +181,19 @@ Frags == <<
 ValOf(di, ei) ==
   LET x == Exprs[ei] IN
   IF x.t = "raw" THEN Err
+  ELSE IF x.t = "flat" THEN [t |-> "bool", v |-> TRUE]
   ELSE IF x.t = "withns" THEN (IF x.bad THEN Err ELSE EvalTop(Docs[di], x.e, x.binds))
   ELSE EvalTop(Docs[di], x, <<>>)
 ExprText(ei) ==
   LET x == Exprs[ei] IN
-  IF x.t = "raw" THEN x.text
+  IF x.t \in {"raw", "flat"} THEN x.text
   ELSE Unparse(IF x.t = "withns" THEN x.e ELSE x, [abbrev |-> TRUE, ws |-> 0, parens |-> FALSE])
 \* the --setns arguments of a run, in order
 SetnsOf(ei) == IF Exprs[ei].t = "withns" THEN Exprs[ei].args ELSE <<>>
 \* documents a --setns expression is run on (the pool is a product otherwise)
 NsExprs == {e \in 1..Len(Exprs) : Exprs[e].t = "withns"} \cup {45}
-RunsOn(di, ei) == (ei \in NsExprs => di \in {1, 7}) /\ (di = 7 => ei \in NsExprs \cup {1, 2, 3, 6, 8, 13, 17, 26, 27})
+RunsOn(di, ei) == (ei \in NsExprs => di \in {1, 7}) /\ (Exprs[ei].t = "flat" => di = 1) /\ (di = 7 => ei \in NsExprs \cup {1, 2, 3, 6, 8, 13, 17, 26, 27})
+\* the text of the flat family is the spelling of the left-deep chain, whose value is true (small members)
+FlatIsChain == \A n \in 1..24 : /\ FlatAnd(n) = Unparse(LeftChain(n), [abbrev |-> TRUE, ws |-> 0, parens |-> FALSE])
+                                 /\ EvalTop(Docs[1], LeftChain(n), <<>>) = [t |-> "bool", v |-> TRUE]
 =============================================================================
